@@ -45,6 +45,15 @@ func CheckRootSchema(rootSchema *schema.Schema) {
 	}
 }
 
+func sortedTypeNames(ss map[string]schema.Type) []string {
+	names := make([]string, 0, len(ss))
+	for name := range ss {
+		names = append(names, name)
+	}
+	sort.Strings(names)
+	return names
+}
+
 func (c *checkSchema) checkType(name string, typ schema.Type, ss map[string]schema.Type) {
 	defer func() {
 		r := recover()
@@ -54,6 +63,16 @@ func (c *checkSchema) checkType(name string, typ schema.Type, ss map[string]sche
 
 		// Return an error with the full set of bytes of the root schema.
 		if documentError, ok := r.(errors.DocumentError); ok {
+			// A node inherited through allOf keeps its position in the text of the
+			// type it was written in: the error belongs to that type.
+			if f := documentError.File(); f != nil && f != typ.RootFile() {
+				for _, n := range sortedTypeNames(ss) {
+					if t := ss[n]; t.RootFile() == f && n[0] == '@' {
+						name, typ = n, t
+						break
+					}
+				}
+			}
 			documentError.SetFile(typ.RootFile())
 			documentError.SetIndex(documentError.Index() + typ.Begin())
 			documentError.SetIncorrectUserType(name)
